@@ -18,8 +18,16 @@ def validate_encoded(string):
       "{} is not a valid hex string\n".format(repr(string))+
       "(it has an odd number of digits)")
 
-def validate_decoded(byte_array):
-  return byte_array.validate()
+def validate_decoded(obj):
+  if isinstance(obj, gfapy.ByteArray):
+    obj.validate()
+  elif isinstance(obj, list):
+    gfapy.ByteArray(obj).validate()
+  else:
+    raise gfapy.TypeError(
+      "the class {} is incompatible with the datatype\n"
+      .format(obj.__class__.__name__)+
+      "(accepted classes: str, list, gfapy.ByteArray)")
 
 def unsafe_encode(obj):
   if isinstance(obj, gfapy.ByteArray):
